@@ -1,6 +1,7 @@
 package main
 
 import (
+	"sort"
 	"go/types"
 	"encoding/json"
 	"flag"
@@ -71,6 +72,7 @@ type runOpts struct {
 	workers   int
 	seed      int64
 	keep      string
+	knownObls map[string]bool
 }
 
 func cmdVerify(args []string) int {
@@ -135,6 +137,12 @@ func cmdVerify(args []string) int {
 	for _, f := range strings.Split(*only, ",") {
 		if f != "" {
 			onlySet[f] = true
+		}
+	}
+	opts.knownObls = map[string]bool{}
+	for _, k := range loadKnown(*known) {
+		if k.Kind == "finding" {
+			opts.knownObls[k.Obligation] = true
 		}
 	}
 	rep := e.VerifyProps(propList, onlySet, opts, *verbose)
@@ -297,6 +305,11 @@ func (e *Engine) VerifyProps(props []string, only map[string]bool, opts runOpts,
 		if o.Cover && strings.Contains(o.Name, "/cover-block#") {
 			continue
 		}
+		if len(want) > 0 && len(o.Props) > 0 && !hasProp(o.Props, want) {
+			// attributed to other properties only (their checks decide it)
+			o.Verdict = "skipped"
+			continue
+		}
 		if len(o.Query)+len(prelude) > 2_000_000 {
 			o.Verdict = "error"
 			o.Result = SolverResult{Verdict: "error", Output: "VC size cap exceeded"}
@@ -362,6 +375,26 @@ func (e *Engine) VerifyProps(props []string, only map[string]bool, opts runOpts,
 		}(o)
 	}
 	wg.Wait()
+	if verbose {
+		slow := append([]*Obligation(nil), rep.Obligations...)
+		sort.Slice(slow, func(i, j int) bool {
+			si, sj := 0.0, 0.0
+			for _, r := range slow[i].All {
+				si += r.Secs
+			}
+			for _, r := range slow[j].All {
+				sj += r.Secs
+			}
+			return si > sj
+		})
+		for i := 0; i < 12 && i < len(slow); i++ {
+			tot := 0.0
+			for _, r := range slow[i].All {
+				tot += r.Secs
+			}
+			fmt.Fprintf(os.Stderr, "slow %6.1fs %s (%s)\n", tot, slow[i].Name, slow[i].Verdict)
+		}
+	}
 	// second chance, unloaded: an obligation left open by a solver timeout while 16
 	// queries ran side by side is retried alone with every solver and 4x the time
 	// (a proof that only fails under load would otherwise be a false alarm)
@@ -374,6 +407,9 @@ func (e *Engine) VerifyProps(props []string, only map[string]bool, opts runOpts,
 	for _, o := range rep.Obligations {
 		if open > 6 {
 			break // many open goals: not a load effect
+		}
+		if opts.knownObls[o.Name] {
+			continue // a recorded finding: expected to fail
 		}
 		if o.Cover || o.Query == "" || retried >= 8 {
 			continue
